@@ -729,6 +729,8 @@ def fix_inline(rng, img) -> None:
     img["abbr"] = rng.random() < 0.75
     if rng.random() < 0.5:
         img["spell"] = IL.random_spell(rng)      # every key / value spelled short or in full independently
+    if rng.random() < 0.3:
+        img["extras"] = IL.random_extras(rng)
     if img["kind"].startswith("jpeg"):
         img["filters"] = ["A85", "DCT"] if "A85" in img["filters"] else (["AHx", "DCT"] if rng.random() < 0.5 else ["DCT"])
     for _ in range(50):
@@ -859,6 +861,8 @@ def gen_inline_case(rng, in_domain: bool) -> Dict[str, Any]:
     case.update(inline_dims(rng, len(data), in_domain))
     if rng.random() < 0.5:
         case["spell"] = IL.random_spell(rng)
+    if rng.random() < 0.3:
+        case["extras"] = IL.random_extras(rng)
     return case
 
 
@@ -883,7 +887,7 @@ def inline_dims(rng, n: int, in_domain: bool) -> Dict[str, Any]:
 
 def inline_dict_of(case) -> Dict[str, Any]:
     img = {"kind": case.get("kind", "gray8"), "w": case.get("w", 2), "h": case.get("h", 2),
-           "filters": [], "spell": case.get("spell")}
+           "filters": [], "spell": case.get("spell"), "extras": case.get("extras")}
     d = IL.image_dict(img, True, case.get("abbr", True))
     if case.get("flt"):
         sp = case.get("spell") or {"F": case.get("abbr", True), "Fv": case.get("abbr", True)}
@@ -923,7 +927,8 @@ def inline_verdict(case) -> Optional[Tuple[str, Any, Any, Dict[str, Any]]]:
     pre, _ = impl_tokens(bytes.fromhex(case["prefix"]), bufsiz)
     suf, _ = impl_tokens(bytes.fromhex(case["suffix"]), bufsiz)
     d = inline_dict_of(case)
-    imgtok = "img{" + ",".join(k + "=" + ("n:" + v if isinstance(v, str) else "i:%d" % v) for k, v in sorted(d.items())) + \
+    imgtok = "img{" + ",".join(k + "=" + ("n:" + v if isinstance(v, str) else ("b:%d" % v if isinstance(v, bool) else "i:%d" % v))
+                               for k, v in sorted(d.items())) + \
              "}:" + C.hx(data)
     exp = pre + [imgtok, "k:EI"] + suf
     tags = {"area": "inline", "data_ends_cr": data.endswith(b"\r"), "sep": case["sep"], "after": case["after"],
